@@ -209,14 +209,14 @@ def run_mode(ctx, res, mode):
                 sample_doc = e["opFiles"][0]["doc"]["defs"][0]["sel"][:2]
             del e
     o = vlib.validate_trace("Trace_C01", "Trace_C01.cfg", ctx.path("events.ndjson"), workdir=ctx.work, timeout=3400, xmx="3g",
-                            extra_env={"MODE": mode, "TIER": ctx.tier})
+                            nshards=vlib.NSHARDS if ctx.quick else 11, extra_env={"MODE": mode, "TIER": ctx.tier})
     # the enumerated documents: a large trace, written by the harness and handed to TLC as a file (never loaded here)
     for b in batches:
         b["evName"] = "TypeGenBatch"
     vlib.write_ndjson(ctx.path("enum_cases.ndjson"), batches)
     vlib.run_harness(["typegen", vlib.CLI_BIN, ctx.path("enum_cases.ndjson"), ctx.path("enum_events.ndjson"), ctx.path("proj"), "12"], timeout=6000)
     o2 = vlib.validate_trace("Trace_C01", "Trace_C01.cfg", ctx.path("enum_events.ndjson"), workdir=ctx.path("enum"), timeout=6000, xmx="3g",
-                             extra_env={"MODE": mode, "TIER": ctx.tier})
+                             nshards=vlib.NSHARDS if ctx.quick else 11, extra_env={"MODE": mode, "TIER": ctx.tier})
     o.events += o2.events
     o.items += o2.items
     o.stats += o2.stats
